@@ -228,7 +228,7 @@ def engine_reports(case):
     out = {}
     for e in case.get("elog") or []:
         if e.get("ev") == "notify" and e.get("k") in ("change", "complete") and e.get("out") and e.get("prev"):
-            out.setdefault((e["step"], e["prev"]), (e["out"], e["seq"]))
+            out.setdefault((e["step"], e["prev"]), (e["out"], e["seq"], e.get("stage") or ""))
     return out
 
 
@@ -259,8 +259,9 @@ def produced_at(case, seq=None):
             if told(sid, "deploy_failed", "error"):
                 st["deploy_failed"] = {"error": {"error": ANYSTR}}
         elif e["ev"] == "exec-start":
-            st["enabling"] = {"resolved": {"enabled": True}}
-            st["starting"] = {"started": {}}
+            if eng is None:
+                st["enabling"] = {"resolved": {"enabled": True}}
+                st["starting"] = {"started": {}}
         elif e["ev"] == "exec-end":
             if e.get("out") == "crash":
                 if told(sid, "crashed", "error"):
@@ -268,7 +269,10 @@ def produced_at(case, seq=None):
             elif told(sid, "outputs", e["out"]):
                 st["outputs"] = {e["out"]: dec(e.get("data"))}
     if eng is not None:
-        for (sid, stage), (out, at) in eng.items():
+        # the outputs the engine generates itself are taken from what the providers REPORTED (a step that is both disabled and
+        # stopped by the same event reports closed, not disabled; a step force-closed while starting reports started and
+        # crashed although its plugin never executed): no inference from expressions or from the plugin's log
+        for (sid, stage), (out, at, new_stage) in eng.items():
             if sid not in steps or (seq is not None and at >= seq):
                 continue
             st = data["steps"][sid]
@@ -276,6 +280,13 @@ def produced_at(case, seq=None):
                 st["crashed"] = {"error": {"output": ANYSTR}}      # e.g. closure timeout: the engine's verdict, not the plugin's
             elif stage == "closed":
                 st["closed"] = {"result": {"cancelled": ANYBOOL, "close_requested": ANYBOOL}}
+            elif stage == "enabling" and out == "resolved":
+                st["enabling"] = {"resolved": {"enabled": new_stage != "disabled"}}
+            elif stage == "starting" and out == "started":
+                st["starting"] = {"started": {}}
+            elif stage == "disabled" and out == "output":
+                st["disabled"] = {"output": {"message": ANYSTR}}
+        return data
     # disabled steps leave no plugin-side trace: infer from the enabled expression
     for sid, s in steps.items():
         en = s.get("fields", {}).get("enabled")
